@@ -301,6 +301,32 @@ pub fn generate(thorough: bool, seed: u64, out: &mut dyn Write) {
             }
         }
     }
+    // redundant header copies (`wredun`): the file header and the LOD table both store every
+    // LOD's vertex / index offsets and sizes; the reader takes the vertex offset from the LOD table
+    // and the index offset from the file header.  The copies the reader does not use are set to
+    // other values (small deltas: the writer sizes the file from the header's offsets + sizes);
+    // parse -> write -> parse must report the same model
+    let n = if thorough { 3000 } else { 60 };
+    for i in 0..n {
+        let o = GenOpts { max_meshes: if i % 3 == 0 { 3 } else { 2 }, max_vertices: 40, combos: WCOMBOS, v5_only: true, canonical: true };
+        let m = gen_model(&mut rng, &o);
+        let k = 1 + rng.below(3) as usize;
+        let mut ps = vec![];
+        for _ in 0..k {
+            let f = *rng.pick(&["lio", "lio", "lio", "fvo", "fvs", "fis", "lvs", "lis"]);
+            let lod = rng.below(3);
+            // the value is a delta to the stored one, applied by the driver (which knows the layout)
+            let d: i64 = match rng.below(5) {
+                0 => 2,
+                1 => 16,
+                2 => -2,
+                3 => 64,
+                _ => 1 + rng.below(48) as i64,
+            };
+            ps.push(format!("{}.{}.{}", f, lod, d));
+        }
+        writeln!(out, "wredun redun={} {}", ps.join(","), m.tokens()).unwrap();
+    }
     // free-layout histories (correspondence only, expected answer = the supplied geometry)
     let n = if thorough { 4000 } else { 80 };
     for i in 0..n {
@@ -507,7 +533,15 @@ fn run_inner(kind: &str, file: Vec<u8>, ops: Vec<Op>) -> String {
         Ok(Some(x)) => x,
     };
     let mdeq = m1.model_data == m.model_data;
-    let fl = flags_text(edited, &file, &buf, mdeq, &m1);
+    let mut fl = flags_text(edited, &file, &buf, mdeq, &m1);
+    if kind == "editr" {
+        // redundant header copies were perturbed: the in-bounds flag of the (unedited) header is
+        // not part of what is compared
+        if let Some(p) = fl.rfind(" inb=") {
+            fl.truncate(p);
+            fl.push_str(" inb=-");
+        }
+    }
     if kind == "rawwrite" {
         format!("ok {}", fl)
     } else {
@@ -521,7 +555,7 @@ pub fn run(case: &str, input: &str) -> String {
         return "bad-case".into();
     }
     let kind = f[0];
-    if kind != "edit" && kind != "wbytes" && kind != "rawwrite" {
+    if kind != "edit" && kind != "editr" && kind != "wbytes" && kind != "rawwrite" {
         return "bad-case".into();
     }
     let Some(file) = unhex(f[1]) else { return "bad-case".into() };
